@@ -37,3 +37,14 @@ def stale_oracle(dr):
     g, cur, name = run.stale[0]
     return ("variable %r was read through access function #%d although #%d had been registered since "
             "(%d stale reads)" % (name, g, cur, len(run.stale)))
+
+
+def reentrant_duplicates_refused(dr):
+    """every run (a third of the cases): the completion being delivered, reported again from
+    inside its own service-finished notification, is refused"""
+    run = dr.get("run")
+    for sid, r in (getattr(run, "dup_results", None) or []):
+        if r:
+            return ("the completion of service %d was accepted a second time when it was reported again from inside "
+                    "its own service-finished notification" % sid)
+    return None
